@@ -137,11 +137,14 @@ hist_prop("C01",
 
 hist_prop("C03",
     ["c03_no_publish_after_pubrec", "c03_pubrel_until_pubcomp", "c03_single_writer", "c03_id_not_reused"],
-    ["the broker-side statement (each message forwarded exactly once by a conforming broker) is judged on histories only; no Coq broker model yet"],
+    ["the closed loop (BrokerWorld.v) models ONE exactly-once level, a conforming broker (MQTT 3.1.1 figure 4.3 method B, session state kept across connections) and one FIFO connection at a time; its resend list was matched with Session.resend by reading, and 'the client applies PUBREC/PUBCOMP only when it reads them in order from the current connection' is tied to the session model through ostep_slim/adopts_slim only",
+     "boundary found while proving: a process restarted by AdoptSession with Config.CleanSession = true asks the broker to drop its session; the broker then forwards a retransmitted PUBLISH again (BrokerWorld.clean_session_restart_duplicates). The configuration itself requests the new session (MQTT-3.1.2-6) and AdoptSession's own comment presupposes CleanSession 0, so it is recorded here as a boundary of the theorem, not as a finding",
+     "exactly once under a good suffix is a bounded-progress statement about runs without Break/Restart (measure mu), not a fairness theorem"],
     "C03 generator: exactly-once publishes only, acknowledgements lost at every stage of the four-packet handshake, restarts.",
     REFINE + "Corollaries: once PUBREC n is recorded the record of n is the PUBREL and stays that record until PUBCOMP n; the only writer of the key is the PUBREC step; identifiers in the window are distinct. "
+    "Closed loop (BrokerWorld.v): in every reachable state of client + conforming broker + connection, under any interleaving of accepts, broker steps, connection breaks, reconnects (with the resend list) and process restarts (counter rebase as adopt_exact states), the broker has forwarded every accepted message at most once (c03_at_most_once), only accepted ones, every one whose PUBREC the client recorded; an identifier the broker holds stands for exactly one message of the window; the client never meets an out-of-order acknowledgement on a live connection; and a run without breaks of length mu reaches the state where every accepted message was forwarded exactly once and everything is acknowledged (c03_good_run_complete/_exists). "
     "c03_ok judges the trace: no PUBLISH n completes on any connection while the PUBREL is recorded; PUBREL saved only over the PUBLISH and after PUBREC was read.",
-    "Trusted: Coq kernel; the Session model; harness. Client-side theorem; exactly-once at the broker's subscribers follows for a conforming broker by the MQTT 3.1.1 handshake (not formalised).",
+    "Trusted: Coq kernel; the Session model; harness; the definition of 'conforming broker' and 'connection' in BrokerWorld.v (stated in coverage.partial).",
     "Coq refinement + invariant proof + model/implementation correspondence")
 
 hist_prop("C05",
